@@ -17,7 +17,10 @@
 package rules
 
 import (
+	"encoding/hex"
+	"net/url"
 	"slices"
+	"strings"
 	"sync"
 
 	"github.com/dadrus/heimdall/internal/heimdall"
@@ -59,7 +62,7 @@ func (r *repository) FindRule(ctx heimdall.Context) (rule.Rule, error) {
 	defer r.rulesTreeMutex.RUnlock()
 
 	entry, err := r.index.Find(
-		x.IfThenElse(len(request.URL.RawPath) != 0, request.URL.RawPath, request.URL.Path),
+		normalizeUnreserved(x.IfThenElse(len(request.URL.RawPath) != 0, request.URL.RawPath, request.URL.Path)),
 		radixtree.LookupMatcherFunc[rule.Route](func(route rule.Route, keys, values []string) bool {
 			return route.Matches(ctx, keys, values)
 		}),
@@ -190,4 +193,41 @@ func (r *repository) removeRulesFrom(tree *radixtree.Tree[rule.Route], tbdRules 
 	}
 
 	return nil
+}
+
+// normalizeUnreserved replaces the percent-encoded unreserved characters (RFC 3986, section 2.3) in
+// value with the characters themselves. All other percent-encoded octets, like e.g. an encoded
+// slash, are left as is. Without that, /b%61r would not be matched by a rule defined for /bar.
+func normalizeUnreserved(value string) string {
+	const escapeLen = 3
+
+	// nothing to do, respectively nothing, which can be done reliably, if there are malformed escapes
+	if _, err := url.PathUnescape(value); err != nil || !strings.Contains(value, "%") {
+		return value
+	}
+
+	var res strings.Builder
+
+	res.Grow(len(value))
+
+	for i := 0; i < len(value); i++ {
+		if value[i] == '%' && i+escapeLen <= len(value) {
+			if b, err := hex.DecodeString(value[i+1 : i+escapeLen]); err == nil && isUnreserved(b[0]) {
+				res.WriteByte(b[0])
+
+				i += escapeLen - 1
+
+				continue
+			}
+		}
+
+		res.WriteByte(value[i])
+	}
+
+	return res.String()
+}
+
+func isUnreserved(c byte) bool {
+	return (c >= 'a' && c <= 'z') || (c >= 'A' && c <= 'Z') || (c >= '0' && c <= '9') ||
+		c == '-' || c == '.' || c == '_' || c == '~'
 }
